@@ -42,6 +42,10 @@ type C12Sc struct {
 	Steps   int         `json:"steps"`
 	Events  []C12Ev     `json:"events"`
 	UseRun  bool        `json:"use_run"`
+	// Direct: the library's DumbMemory/MapMemory/DumbIO values are handed to the CPU
+	// themselves, not behind the recording wrapper (type-specific fast paths only
+	// exist for the real types); no bus history then, only totality.
+	Direct bool `json:"direct,omitempty"`
 	BP      []uint16    `json:"bp,omitempty"`
 }
 
@@ -125,7 +129,13 @@ func (c12) Gen(r *world.Rng, tier string, n int) interface{} {
 		case 1:
 			ev.Data = ""
 		case 2:
-			ev.DataLen = 70000
+			// long data: an instruction (often one that reads or writes memory) followed by filler
+			ev.DataLen = r.Pick(5, 6, 8, 64, 300, 65536, 65537, 70000)
+			if r.Chance(2, 3) {
+				ev.Data = hex.EncodeToString([]uint8{[]uint8{0x7e, 0xe1, 0xc9, 0x86, 0x34, 0x36, 0xe3, 0x2a, 0x3a, 0xed, 0xdd, 0xfd, 0xcb}[r.Intn(13)], r.Byte(), r.Byte(), r.Byte()})
+			} else {
+				ev.Data = hex.EncodeToString(r.Bytes(r.Range(1, 4)))
+			}
 		case 3:
 			ev.Data = hex.EncodeToString([]uint8{[]uint8{0xdd, 0xfd, 0xed, 0xcb}[r.Intn(4)]}) // prefix only
 		case 4:
@@ -137,6 +147,7 @@ func (c12) Gen(r *world.Rng, tier string, n int) interface{} {
 		}
 		sc.Events = append(sc.Events, ev)
 	}
+	sc.Direct = r.Chance(1, 4)
 	if r.Chance(1, 4) {
 		sc.UseRun = true
 		sc.Steps = r.Range(16, 400)
@@ -201,6 +212,8 @@ func (e C12Ev) request() *z80.Interrupt {
 		for i := range q.Data {
 			q.Data[i] = uint8(i*7 + 1)
 		}
+		p, _ := hex.DecodeString(e.Data)
+		copy(q.Data, p)
 	default:
 		q.Data, _ = hex.DecodeString(e.Data)
 		if q.Data == nil {
@@ -283,15 +296,24 @@ func c12Build(sc *C12Sc, env *Env) *c12World {
 		}
 	}
 	cpu.Memory = recMem{inner, &w.log, &w.tick, onAccess}
+	if sc.Direct && !sc.UseRun {
+		cpu.Memory = inner
+	}
+	wrapIO := func(d z80.DumbIO) z80.IO {
+		if sc.Direct && !sc.UseRun {
+			return d
+		}
+		return recIO{d, &w.log, &w.tick, onAccess}
+	}
 	switch sc.IOKind {
 	case "dumb":
 		d := make(z80.DumbIO, sc.IOLen)
 		fill(d)
-		cpu.IO = recIO{d, &w.log, &w.tick, onAccess}
+		cpu.IO = wrapIO(d)
 	case "full":
 		d := make(z80.DumbIO, 256)
 		fill(d)
-		cpu.IO = recIO{d, &w.log, &w.tick, onAccess}
+		cpu.IO = wrapIO(d)
 	default:
 		cpu.IO = nil
 	}
@@ -329,7 +351,7 @@ func (c12) Exec(sci interface{}, env *Env) (res *Violation) {
 			res = viol("panic", "%s: %v (memory %s/%d, io %s/%d, IM=%d, regs{%s})", where, r, sc.MemKind, sc.MemLen, sc.IOKind, sc.IOLen, sc.IM, world.FmtStates(cpu.States))
 		}
 	}()
-	env.Class("env/mem=%s/io=%s/im=%s", sc.MemKind, sc.IOKind, imClass(sc.IM))
+	env.Class("env/mem=%s/io=%s/im=%s/direct=%t", sc.MemKind, sc.IOKind, imClass(sc.IM), sc.Direct && !sc.UseRun)
 	env.NonTrivial = true
 
 	if sc.UseRun {
@@ -394,6 +416,9 @@ func (c12) Exec(sci interface{}, env *Env) (res *Violation) {
 		cpu.Step()
 		env.Steps++
 		log := w.log
+		if sc.Direct {
+			continue // no bus history without the recording wrapper: totality only
+		}
 		if checkNext && !hadReq {
 			// execution continues with the next byte
 			if len(log) == 0 || log[0].Kind != world.MR || log[0].Addr != pendingNext || pcBefore != pendingNext {
